@@ -329,6 +329,21 @@ class IntroVisitor(ast.NodeVisitor):
         # _logger.debug(f"visit_call: call name is {n}")
         if n is not None:
             self._store_names.add(n)
+        is_keep = InspectFunction.is_keep_call(
+            node, self._gctx, self._start_mod, self._function_var_names
+        )
+        if is_keep:
+            # The function given to dds.keep is introspected with its arguments below.
+            # This occurrence of its name must not be introspected again as a higher-order
+            # reference (without arguments): the paths kept inside it would be assigned a second,
+            # context-dependent signature. Other references to the same function are still tracked.
+            self._kept_function_names.add(id(node.args[1]))
+        # The arguments are evaluated before the call itself: the calls that they contain come first
+        # (the call-site context of this call then depends on them).
+        for arg in node.args:
+            self.visit(arg)
+        for kw in node.keywords:
+            self.visit(kw.value)
         # This is a bit brute-force but it should be good enough in practice for most cases.
         # The call may span several lines: all of them are part of the context.
         # TODO: refine it based of the nested parse tree?
@@ -352,18 +367,11 @@ class IntroVisitor(ast.NodeVisitor):
         )
         if fi_or_p is not None and isinstance(fi_or_p, FunctionInteractions):
             self.inters.append(fi_or_p)
-            if InspectFunction.is_keep_call(
-                node, self._gctx, self._start_mod, self._function_var_names
-            ):
-                # The function given to dds.keep has just been introspected with its arguments.
-                # This occurrence of its name must not be introspected again as a higher-order
-                # reference (without arguments): the paths kept inside it would be assigned a second,
-                # context-dependent signature. Other references to the same function are still tracked.
-                self._kept_function_names.add(id(node.args[1]))
         # str is the underlying type of a DDSPath
         if fi_or_p is not None and isinstance(fi_or_p, str):
             self._add_load_path(fi_or_p)
-        self.generic_visit(node)
+        # The expression that is called (for instance the inner call of 'f(x).g()')
+        self.visit(node.func)
 
     def _add_load_path(self, p: DDSPath) -> None:
         # The calls are visited in program order: a path produced by this evaluation is
